@@ -438,6 +438,18 @@ func runC05(c *Ctx, r *Report) {
 	if nTainted < 10 {
 		r.Undecided("C05.R3: only %d functions found that may return a register (expected the evaluator family)", nTainted)
 	}
+	// lists: a list that may still hold a live register does not become container storage (a register put into a
+	// local list, the list then appended / handed to NewArray: [10] + i)
+	{
+		rl := c.NewRefListsFor(c.registerSpec())
+		for _, sk := range rl.Sinks() {
+			if pk := pkgOfSSA(sk.Fn); pk == nil || (shortPkg(pk) != "eval" && shortPkg(pk) != "object" && shortPkg(pk) != "extensions") {
+				continue
+			}
+			r.Check(!sk.Raw, "C05.R3", ssaFuncName(sk.Fn), "register-free "+sk.Desc, c.Pos(instrPos(sk.At)),
+				"the list may still hold a live *Register (an integer parameter or loop variable read without object.Value / CopyRegister) when it becomes container storage: the stored element follows the register, i.e. later iterations, later loops reusing the slot (for i = 3 { if i == 1 { K = [10] + i } } leaves K following i)")
+		}
+	}
 	r.Floor("C05.R3", 15)
 
 	// R6 use after release
